@@ -169,6 +169,22 @@ fn gen(a: &Args) {
     let mut o = Out::new();
     let thorough = a.tier == "thorough";
     let ncases = if thorough { 12000 } else { 700 };
+    // a few large tables (bit indices beyond 2^16), short histories
+    for c in 0..(if thorough { 40 } else { 6 }) {
+        let k = r.range(1, 32);
+        if c % 2 == 0 {
+            let n = r.range(1, 3);
+            let sizes: Vec<u64> = (0..n).map(|_| *r.pick(&[65521u64, 65536, 65537, 66000, 70001])).collect();
+            o.case(&format!("new {} {}", k, show_nats(sizes.iter().copied())));
+            history(&mut o, &mut r, &sizes, 12, false);
+        } else {
+            let ts = r.range(20000, 70000);
+            let nt = r.range(1, 3);
+            o.case(&format!("wt {} {} {}", ts, nt, k));
+            let sizes = Nodegraph::with_tables(ts as usize, nt as usize, k as usize).tablesizes();
+            history(&mut o, &mut r, &sizes, 12, false);
+        }
+    }
     for c in 0..ncases {
         let k = r.range(1, 32);
         match c % 10 {
